@@ -94,6 +94,9 @@ func (g *c01Gen) value(gen string, ids [][]string) (c01Val, bool) {
 			}
 			return c01Val{k: 'b', b: g.r.chance(50)}, true
 		}
+		if g.r.chance(18) { // escape characters, spellings of numbers of every magnitude
+			return c01Val{k: 's', s: g.pickS(c01CoercePool())}, true
+		}
 		if gen == "strnum" && g.r.chance(70) {
 			return c01Val{k: 's', s: g.pickS(c01NumStrings)}, true
 		}
@@ -119,6 +122,9 @@ func (g *c01Gen) value(gen string, ids [][]string) (c01Val, bool) {
 		}
 		if g.r.chance(12) {
 			return c01Val{k: 'i', i: g.pickI(c01Ints)}, true
+		}
+		if g.r.chance(25) {
+			return c01Val{k: 'f', f: g.pickF(c01ExtremeFloatValues())}, true
 		}
 		return c01Val{k: 'f', f: g.pickF(c01Floats)}, true
 	case "wholefloat":
@@ -149,6 +155,9 @@ func (g *c01Gen) value(gen string, ids [][]string) (c01Val, bool) {
 func (g *c01Gen) tagValue() c01Val {
 	switch g.weighted([]int{30, 15, 15, 12, 12, 16}) {
 	case 0:
+		if g.r.chance(20) {
+			return c01Val{k: 's', s: g.pickS(c01CoercePool())}
+		}
 		return c01Val{k: 's', s: g.pickS(c01Strings)}
 	case 1:
 		return c01Val{k: 'w', i: g.pickI(c01Int32s)}
@@ -157,7 +166,14 @@ func (g *c01Gen) tagValue() c01Val {
 	case 3:
 		return c01Val{k: 'b', b: g.r.chance(50)}
 	case 4:
-		return c01Val{k: 'f', f: g.pickF(c01WholeFloats)}
+		switch g.weighted([]int{50, 25, 25}) {
+		case 0:
+			return c01Val{k: 'f', f: g.pickF(c01WholeFloats)}
+		case 1:
+			return c01Val{k: 'f', f: g.pickF(c01Floats)}
+		default:
+			return c01Val{k: 'f', f: g.pickF(c01ExtremeFloatValues())}
+		}
 	default:
 		return c01Val{k: 'n'}
 	}
@@ -170,6 +186,10 @@ func (g *c01Gen) set(gen string, ids [][]string) ([]string, bool) {
 	n := g.weighted([]int{20, 25, 25, 20, 10})
 	var out []string
 	for i := 0; i < n; i++ {
+		if (gen == "strset" || gen == "numset") && g.r.chance(15) {
+			out = append(out, g.pickS(c01CoercePool()))
+			continue
+		}
 		switch gen {
 		case "strset":
 			out = append(out, g.pickS(c01Strings))
@@ -288,6 +308,13 @@ func (g *c01Gen) strLit(sym *c01Sym) *c01Lit {
 	if sym != nil && sym.ids >= 0 && g.r.chance(75) {
 		return &c01Lit{k: 'S', s: g.pickS(append(c01IdPool(sym.ids), "zz", "nope"))}
 	}
+	if g.r.chance(20) { // escape sequences at the ends / in the middle / alone; spellings of numbers
+		if g.r.chance(70) {
+			g.count("lit:S-escaped")
+			return &c01Lit{k: 'S', s: g.pickS(c01EscStrings)}
+		}
+		return &c01Lit{k: 'S', s: g.pickS(c01CoercePool())}
+	}
 	if sym != nil && sym.nums && g.r.chance(70) {
 		return &c01Lit{k: 'S', s: g.pickS(c01NumStrings)}
 	}
@@ -295,9 +322,23 @@ func (g *c01Gen) strLit(sym *c01Sym) *c01Lit {
 }
 
 func (g *c01Gen) intLit() *c01Lit { return &c01Lit{k: 'I', i: g.pickI(c01Ints)} }
-func (g *c01Gen) floatLit(whole bool) *c01Lit {
-	if whole {
-		return &c01Lit{k: 'F', ftxt: g.pickS(c01WholeFloatLits)}
+
+// floatLit: strMode = the literal will be converted to a string (every form and magnitude matters there);
+// otherwise it is compared numerically
+func (g *c01Gen) floatLit(strMode bool) *c01Lit {
+	if strMode {
+		switch g.weighted([]int{35, 45, 20}) {
+		case 0:
+			return &c01Lit{k: 'F', ftxt: g.pickS(c01WholeFloatLits)}
+		case 1:
+			g.count("lit:F-extreme-string-mode")
+			return &c01Lit{k: 'F', ftxt: g.pickS(c01ExtremeNumLits)}
+		default:
+			return &c01Lit{k: 'F', ftxt: g.pickS(c01FloatLits)}
+		}
+	}
+	if g.r.chance(20) {
+		return &c01Lit{k: 'F', ftxt: g.pickS(c01ExtremeNumLits)}
 	}
 	return &c01Lit{k: 'F', ftxt: g.pickS(c01FloatLits)}
 }
@@ -329,24 +370,24 @@ func (g *c01Gen) litFor(sym *c01Sym, ty byte, op string) *c01Lit {
 	}
 	if strMode {
 		if op == "icontains" || op == "nicontains" {
-			return &c01Lit{k: 'S', s: g.pickS([]string{"a", "A", "ab", "AB", "bc", "B", "", "x Y", "5", "zz", "bD"})}
+			return &c01Lit{k: 'S', s: g.pickS([]string{"a", "A", "ab", "AB", "bc", "B", "", "x Y", "5", "zz", "bD", `"`, `\`, `HI"`, `"h`, "\n", `E-`, "e+", `A\`})}
 		}
-		switch g.weighted([]int{70, 22, 8}) {
+		switch g.weighted([]int{60, 20, 20}) {
 		case 0:
-			return &c01Lit{k: 'S', s: g.pickS([]string{"a", "b", "ab", "bc", "", "5", "1", "-", "x", "A", "7", "0", "abcabc", "ru"})}
+			return &c01Lit{k: 'S', s: g.pickS([]string{"a", "b", "ab", "bc", "", "5", "1", "-", "x", "A", "7", "0", "abcabc", "ru", `"`, `\`, `hi"`, `"h`, "\n", `\"`, "e", "e-", "e+", ".", "00", `i\`})}
 		case 1:
-			return &c01Lit{k: 'I', i: g.pickI([]int64{5, 1, 15, 0, 7, 3, -3})}
+			return &c01Lit{k: 'I', i: g.pickI(append([]int64{5, 1, 15, 0, 7, 3, -3}, c01ExtremeInts...))}
 		default:
 			return g.floatLit(true)
 		}
 	}
 	switch ty {
 	case 's':
-		switch g.weighted([]int{75, 18, 7}) {
+		switch g.weighted([]int{70, 15, 15}) {
 		case 0:
 			return g.strLit(sym)
 		case 1:
-			return &c01Lit{k: 'I', i: g.pickI([]int64{5, 15, 17, 3, -3, 0, 42, 27})}
+			return &c01Lit{k: 'I', i: g.pickI(append([]int64{5, 15, 17, 3, -3, 0, 42, 27}, c01ExtremeInts...))}
 		default:
 			return g.floatLit(true)
 		}
@@ -396,7 +437,7 @@ func (g *c01Gen) opFor(ty byte, whole bool) string {
 			return g.pickS(c01StrOps[:2])
 		}
 	case 'f':
-		if whole && g.r.chance(10) {
+		if g.r.chance(10) {
 			return g.pickS(c01StrOps[:2])
 		}
 	case 'b':
@@ -439,7 +480,7 @@ func (g *c01Gen) arrFor(sym *c01Sym, ty byte) (string, []*c01Lit) {
 			arr = append(arr, g.strLit(sym))
 		case 1:
 			if strMode {
-				arr = append(arr, &c01Lit{k: 'I', i: g.pickI([]int64{5, 15, 17, 27, 3, -3, 0, 42})})
+				arr = append(arr, &c01Lit{k: 'I', i: g.pickI(append([]int64{5, 15, 17, 27, 3, -3, 0, 42}, c01ExtremeInts[:3]...))})
 			} else {
 				arr = append(arr, g.intLit())
 			}
@@ -573,11 +614,7 @@ func (g *c01Gen) atom(store int, depth int, dotted bool) *c01Filter {
 	switch g.weighted([]int{58, 14, 12, 6, 3, 7}) {
 	case 0:
 		l, sym, ty := g.lhs(store, depth, dotted)
-		whole := sym == nil || sym.whole
-		op := g.opFor(ty, whole)
-		if !whole && (op == "contains" || op == "ncontains" || op == "icontains" || op == "nicontains") {
-			op = g.pickS(c01CmpOps) // FormatFloat of arbitrary floats is outside the model
-		}
+		op := g.opFor(ty, true) // float -> string of every float is modelled (Ast/FmtFloat.v)
 		if l.k == "cnt" || l.k == "cntq" {
 			lit := &c01Lit{k: 'I', i: g.pickI([]int64{0, 1, 2, 3, 4, -1})}
 			if g.r.chance(15) {
@@ -588,26 +625,11 @@ func (g *c01Gen) atom(store int, depth int, dotted bool) *c01Filter {
 			return &c01Filter{k: "bin", lhs: l, op: op, lit: lit}
 		}
 		lit := g.litFor(sym, ty, op)
-		if lit.k == 'F' && !whole && (ty == 's' || op == "contains" || op == "ncontains") {
-			lit = g.floatLit(true)
-		}
 		g.count("op:" + op)
 		g.count("lit:" + string(lit.k))
 		return &c01Filter{k: "bin", lhs: l, op: op, lit: lit}
 	case 1:
 		l, sym, ty := g.lhs(store, depth, dotted)
-		if sym != nil && ty == 'f' && !sym.whole {
-			// keep the float -> string coercion of arbitrary floats out (not modelled)
-			for {
-				k, arr := g.arrFor(sym, ty)
-				if k != "AS" {
-					neg := g.r.chance(35)
-					g.count("op:in")
-					g.count("arr:" + k)
-					return &c01Filter{k: "in", lhs: l, neg: neg, arrK: k, arr: arr}
-				}
-			}
-		}
 		k, arr := g.arrFor(sym, ty)
 		if l.k == "cnt" || l.k == "cntq" {
 			k = "AN"
